@@ -147,7 +147,54 @@ def oracle(cases, impl):
     return fails
 
 
+PASSWORDS_LF = [b"x\nkill", b"hunter2\n", b"\n", b"x\"\nkill\n\"", b"x\ncommand_list_begin", b"a b\nclose", b"\nidle", "pä\nkill".encode(), b"x" * 300 + b"\nkill"]
+PASSWORDS_OK = [b"ok", b"a b", b"q\"t", b"it's", b"back\\slash", b"tab\there", b"cr\rhere", b"\x1b[0m", b"\x7f", "é".encode(), b""]
+
+
+def password_cases():
+    """The password handed to Client::connect_with_password is a user-supplied string that becomes a command argument too."""
+    import looplib as L
+    scheds = []
+    for api in "po":
+        for pw in PASSWORDS_LF + PASSWORDS_OK:
+            scheds.append(L.Sched(cspec=f"{api}:{hexs(pw)}", conf=L.conf(pw=pw), labels=["D0", "S*", "D0", "S*", "t200"], note=f"password {pw[:30]!r}"))
+    return scheds
+
+
+def run_passwords(ctx):
+    import looplib as L
+    scheds = password_cases()
+    results = L.run_schedules(ctx, scheds)
+    fails = []
+    for r, s in zip(results, scheds):
+        t = L.Trace(r)
+        written = b"".join(l + b"\n" for _, l in t.written_lines())
+        pw = unhexs(s.cspec.split(":", 1)[1])
+        # one request was asked for (the password), and after the server's verdict the client's own idle: whatever the password
+        # contains, no other line may appear, and nothing of the password may stand on a line of its own
+        lines = [l for _, l in t.written_lines()]
+        extra = [l for l in lines[1:] if l != b"idle"]
+        if lines and not lines[0].startswith(b"password "):
+            fails.append(Failure(s.model_case(), f"[{s.note}] the first line written is {lines[0][:80]!r}, not the password command", extra={"password": True}))
+        elif extra or len(lines) > 2:
+            fails.append(Failure(s.model_case(), f"[{s.note}] connecting with this password wrote the lines {lines[:5]}: a user-supplied string added a line "
+                                                 f"(allowed: the password command, then the client's idle; or nothing at all)", extra={"password": True}))
+        elif b"\n" in pw and lines:
+            fails.append(Failure(s.model_case(), f"[{s.note}] a password containing a line feed was sent as {written[:120]!r}", extra={"password": True}))
+    return scheds, fails, L.disagreements(results)
+
+
 def run(ctx, only=None):
+    if only is not None and only and only[0].startswith("loopm "):
+        import looplib as L
+        scheds = [L.Sched(cspec=c.split(" ")[1], conf=c.split(" ")[2], labels=c.split(" ")[3:]) for c in only]
+        results = L.run_schedules(ctx, scheds)
+        for r in results:
+            print("labels:", " ".join(r["sched"].labels), "\nimpl  :", r["impl_raw"][:1500], "\nmodel :", " ".join(r["model_segs"])[:1500])
+        bad = [r for r in results if len([l for _, l in L.Trace(r).written_lines() if l != b"idle"]) > 1 or L.disagreements([r])]
+        for r in bad:
+            print("VIOLATION property=C07 replay=(this case) lines written:", [l for _, l in L.Trace(r).written_lines()][:5])
+        return 1 if bad else 0
     cases = only if only is not None else gen(ctx)
     impl = ctx.run_impl(cases)
     disagreements = []
@@ -157,6 +204,12 @@ def run(ctx, only=None):
         model = ctx.run_model([c for c, _ in corr])
         disagreements = compare([c for c, _ in corr], [a for _, a in corr], model)
     fails = oracle(cases, impl)
+    npw = 0
+    if only is None and ctx.model_ok:
+        pws, pwfails, pwdis = run_passwords(ctx)
+        npw = len(pws)
+        fails += pwfails
+        disagreements += pwdis
     if only is not None:
         for c, o in zip(cases, impl):
             print("case :", c, "\nimpl :", o)
@@ -170,11 +223,13 @@ def run(ctx, only=None):
         dist[k] = dist.get(k, 0) + 1
     nontrivial = {c for c, o in zip(cases, impl) if "err" in o or c.startswith("cmd_list")}
     return finish(
-        ctx, evaluations=len(cases), distinct_nontrivial=len(nontrivial),
+        ctx, evaluations=len(cases) + npw, distinct_nontrivial=len(nontrivial) + npw,
         rule="all command names of length <= 2 over a 14-symbol alphabet plus list-framing names and near misses; random sequences of <= 6 "
              "add_argument calls mixing str/String/Cow/raw-bytes/bool/integer/Duration arguments with and without line feeds, the command "
              "observed after every call; lists of 1..9 (thorough ..40) commands through add/command/extend; "
-             "non-trivial = a rejection occurred or a list was rendered",
+             "arguments whose renderer is stateful (a line feed on its k-th call only); passwords with line feeds / quotes / control "
+             "characters through Client::connect_with_password(_opt) against the simulated server (lines written: the password command and "
+             "the client's idle, or nothing); non-trivial = a rejection occurred or a list was rendered",
         samples=[cases[3], cases[len(cases) // 2], cases[-1]], distribution=dist,
         oracle_failures=fails, disagreements=disagreements,
     )
